@@ -660,7 +660,8 @@ fn run_fit(case: &Case, cfg: &Cfg, cnt: &mut Cnt, viols: &mut Vec<Violation>) ->
         } else {
             let s: f64 = row.iter().sum();
             if (s - 1.0).abs() > TOL_SUM {
-                if low_regime {
+                // subnormal band only: below it the un-shifted sum is exactly 0 and the row is all inf
+                if low_regime && wl_max >= -745.2 - 1.0 - err_max {
                     note(SIG_SUBNORMAL, i, format!("query {} = {:?}: predict_proba row {:?} sums to {} (|sum-1| = {:e}); reference weighted log densities {:?}: the largest exp() is subnormal, so the un-shifted sum has lost its mantissa", q.kind, q.x, row, s, (s - 1.0).abs(), wl));
                 } else {
                     note("gmm.predict_proba.row_does_not_sum_to_one", i, format!("query {} = {:?}: predict_proba row {:?} sums to {} (expected 1 +- {:e})", q.kind, q.x, row, s, TOL_SUM));
